@@ -8,24 +8,24 @@ import (
 	"go/ast"
 	"go/parser"
 	"go/token"
-	"strconv"
 	"os"
-		"regexp"
-		"strings"
+	"regexp"
+	"strconv"
+	"strings"
 )
 
 type Clause struct {
-	Kind  string   // requires ensures modifies invariant use lmodifies
-	Tags  []string // property ids; empty = base
-	Label string
-	Text  string
-	Expr  ast.Expr   // parsed (requires/ensures/invariant)
-	Exprs []ast.Expr // modifies: list of designators
-	Loop  int        // loop ordinal (1-based) for invariant/lmodifies
-	Ord   int        // ordinal among clauses of the same kind
-	Assumed bool     // postulate: a postcondition that is used by callers but not checked against the body
-	File  string
-	Line  int
+	Kind    string   // requires ensures modifies invariant use lmodifies
+	Tags    []string // property ids; empty = base
+	Label   string
+	Text    string
+	Expr    ast.Expr   // parsed (requires/ensures/invariant)
+	Exprs   []ast.Expr // modifies: list of designators
+	Loop    int        // loop ordinal (1-based) for invariant/lmodifies
+	Ord     int        // ordinal among clauses of the same kind
+	Assumed bool       // postulate: a postcondition that is used by callers but not checked against the body
+	File    string
+	Line    int
 }
 
 type Contract struct {
@@ -38,14 +38,14 @@ type Contract struct {
 	Invs     []*Clause // loop invariants
 	LMods    []*Clause // loop modifies
 	Uses     []*Clause
-	Assumed  bool   // contract of code outside the verified set (trusted)
-	Inline   bool   // force inlining at call sites even though a contract exists
+	Assumed  bool     // contract of code outside the verified set (trusted)
+	Inline   bool     // force inlining at call sites even though a contract exists
 	Safety   []string // property tags for automatic no-panic obligations
 	NoSafety bool
-	Native   bool // lemma over strings and integers only: queries use the solvers' native string theory
-	Serves   []string // properties that claim this function's base clauses
+	Native   bool      // lemma over strings and integers only: queries use the solvers' native string theory
+	Serves   []string  // properties that claim this function's base clauses
 	Sites    []*Clause // call-site assertions: Label=callee key pattern
-	Params   []string // explicit formal names (for interface methods / externs)
+	Params   []string  // explicit formal names (for interface methods / externs)
 	Pure     bool
 	File     string
 	Line     int
@@ -72,6 +72,17 @@ type UFun struct {
 	Result string
 }
 
+// Pin: a package-level string whose initial value an assumed meaning depends on
+// (regular expressions: the axioms about them are about these texts).
+type Pin struct {
+	Pkg   string
+	Name  string
+	Value string
+	Tags  []string
+	File  string
+	Line  int
+}
+
 type Axiom struct {
 	Pkg  string
 	Text string
@@ -90,23 +101,24 @@ type ModSet struct {
 // GState: ghost state function (a specification-only map, e.g. the file
 // system): read as name(key), framed as name[key] / name[*].
 type GState struct {
-	Name, Pkg    string
+	Name, Pkg     string
 	Param, Result string // "string" | "int" | "bool"
 }
 
 type ContractSet struct {
-	GStates map[string]*GState
-	ModSets map[string]*ModSet
-	UFuns   map[string]*UFun
-	Axioms  []*Axiom
-	Funcs   map[string]*Contract
-	Defs    map[string]*SpecDef // key pkg.name
-	Devirts []Devirt
+	GStates        map[string]*GState
+	ModSets        map[string]*ModSet
+	UFuns          map[string]*UFun
+	Axioms         []*Axiom
+	Funcs          map[string]*Contract
+	Pins           []*Pin
+	Defs           map[string]*SpecDef // key pkg.name
+	Devirts        []Devirt
 	NoEffectIfaces map[string]bool
-	Files   []string
+	Files          []string
 }
 
-var clauseRe = regexp.MustCompile(`^(premise|postulate|requires|ensures|modifies|loop|use|func|extern|iface|pred|ghost|devirt|noeffect|assumed|inline|safety|nosafety|params|pure|nativestrings|ufun|axiom|serves|modset|callsite|gstate)\b`)
+var clauseRe = regexp.MustCompile(`^(premise|postulate|requires|ensures|modifies|loop|use|func|extern|iface|pred|ghost|devirt|noeffect|assumed|inline|safety|nosafety|params|pure|nativestrings|pin|ufun|axiom|serves|modset|callsite|gstate)\b`)
 
 func newContractSet() *ContractSet {
 	return &ContractSet{Funcs: map[string]*Contract{}, Defs: map[string]*SpecDef{}, NoEffectIfaces: map[string]bool{}, UFuns: map[string]*UFun{}, ModSets: map[string]*ModSet{}, GStates: map[string]*GState{}}
@@ -218,6 +230,28 @@ func (cs *ContractSet) loadFileAs(path string, pkgKey string) error {
 				}
 			}
 			cs.UFuns[pkgName+"."+u.Name] = u
+			cur = nil
+		case "pin":
+			// pin[TAGS] name = "go string literal"
+			pn := &Pin{Pkg: pkgName, File: path, Line: s.line}
+			r := rest
+			if m := tagRe.FindStringSubmatch(r); m != nil {
+				for _, t := range strings.Split(m[1], ",") {
+					pn.Tags = append(pn.Tags, strings.TrimSpace(t))
+				}
+				r = strings.TrimSpace(r[len(m[0]):])
+			}
+			eqi := strings.Index(r, "=")
+			if eqi < 0 {
+				return fail(fmt.Errorf("pin wants: name = \"literal\""))
+			}
+			pn.Name = strings.TrimSpace(r[:eqi])
+			v, err := strconv.Unquote(strings.TrimSpace(r[eqi+1:]))
+			if err != nil {
+				return fail(fmt.Errorf("pin value: %v", err))
+			}
+			pn.Value = v
+			cs.Pins = append(cs.Pins, pn)
 			cur = nil
 		case "axiom":
 			e, err := parseSpecExpr(rest)
@@ -725,4 +759,3 @@ func matchClose(s string, i int) int {
 	}
 	return len(s) - 1
 }
-
